@@ -2,8 +2,10 @@
 // (testdata/gen/go/example, DRIVER node) run by its own Run(ctx) over a unix-domain socket, and by
 // canrunner.Run over net.Pipe through a wrapper that only overrides Connect.  The peer end decodes
 // frames with socketcan.Receiver.  Checks printed as
-//   WN scen=<s> check=<c> ok=<0|1> info=<text>
-//   RUN scen=<s> cause=<none|rxhook|txhook|other> text=<hex of the hook error text> msg=<hex message name> got=<nil|hex of Run's error text>
+//
+//	WN scen=<s> check=<c> ok=<0|1> info=<text>
+//	RUN scen=<s> cause=<none|rxhook|txhook|other> text=<hex of the hook error text> msg=<hex message name> got=<nil|hex of Run's error text>
+//
 // Timing: ticks are real (MotorCommand's cycle time is set to 1 ms); all waits are generous and a
 // timeout only becomes ok=0 where the model says the awaited event must happen under fairness.
 package main
